@@ -361,24 +361,35 @@ fn privileged_cases(sim: &Sim) -> Vec<Case> {
     let (ro, rn) = owner_of(sim, REWARD);
     let (go, gn) = owner_of(sim, REGISTRY);
     let updater = sim.obs.hub.as_ref().map(|h| h.config.update_reward_index_addr.clone()).unwrap_or(UPDATER.into());
+    // principals that exist only once the hub owner has registered them
+    let hc = sim.obs.hub.as_ref().map(|h| h.config.clone());
+    let opt = |x: Option<String>| -> Vec<String> { x.into_iter().collect() };
+    let reg_disp = opt(hc.as_ref().and_then(|c| c.reward_dispatcher_contract.clone()));
+    let reg_registry = opt(hc.as_ref().and_then(|c| c.validators_registry_contract.clone()));
+    let reg_airdrop = opt(hc.as_ref().and_then(|c| c.airdrop_registry_contract.clone()));
+    let reg_bsei = opt(hc.as_ref().and_then(|c| c.bsei_token_contract.clone()));
+    let reg_tokens: Vec<String> = reg_bsei.iter().cloned().chain(opt(hc.as_ref().and_then(|c| c.stsei_token_contract.clone()))).collect();
+    let tokens_both = if reg_tokens.len() == 2 { reg_tokens.clone() } else { vec![] };
+    let ugi: Vec<String> = std::iter::once(updater.clone()).chain(reg_registry.iter().cloned()).collect();
     let paused = sim.obs.hub.as_ref().and_then(|h| h.params.paused);
     let a_val = sim.w.staking.validators.iter().next().cloned().unwrap_or("val0".into());
     let reg_val = sim.obs.registry.as_ref().and_then(|r| r.last().map(|v| v.address.clone())).unwrap_or("val0".into());
     let s = |x: &str| x.to_string();
     vec![
         Case { contract: HUB, name: "hub.update_config", msg: json!({"update_config": {"update_reward_index_addr": updater}}), funds: 0, designated: vec![ho.clone()] },
-        Case { contract: HUB, name: "hub.update_config.bsei_token", msg: json!({"update_config": {"bsei_token_contract": FOREIGN_CW20}}), funds: 0, designated: vec![] },
-        Case { contract: HUB, name: "hub.update_config.stsei_token", msg: json!({"update_config": {"stsei_token_contract": FOREIGN_CW20}}), funds: 0, designated: vec![] },
+        // once set, nobody may change a token address; while unset the owner may set it
+        Case { contract: HUB, name: "hub.update_config.bsei_token", msg: json!({"update_config": {"bsei_token_contract": FOREIGN_CW20}}), funds: 0, designated: if reg_bsei.is_empty() { vec![ho.clone()] } else { vec![] } },
+        Case { contract: HUB, name: "hub.update_config.stsei_token", msg: json!({"update_config": {"stsei_token_contract": FOREIGN_CW20}}), funds: 0, designated: if hc.as_ref().and_then(|c| c.stsei_token_contract.clone()).is_none() { vec![ho.clone()] } else { vec![] } },
         Case { contract: HUB, name: "hub.update_params", msg: json!({"update_params": {"paused": paused}}), funds: 0, designated: vec![ho.clone()] },
         Case { contract: HUB, name: "hub.set_owner", msg: json!({"set_owner": {"new_owner_addr": hn}}), funds: 0, designated: vec![ho.clone()] },
         Case { contract: HUB, name: "hub.accept_ownership", msg: json!({"accept_ownership": {}}), funds: 0, designated: vec![hn.clone()] },
-        Case { contract: HUB, name: "hub.bond_rewards", msg: json!({"bond_rewards": {}}), funds: 1000, designated: vec![s(DISPATCHER)] },
-        Case { contract: HUB, name: "hub.redelegate_proxy", msg: json!({"redelegate_proxy": {"src_validator": a_val, "redelegations": []}}), funds: 0, designated: vec![s(REGISTRY)] },
-        Case { contract: HUB, name: "hub.update_global_index", msg: json!({"update_global_index": {}}), funds: 0, designated: vec![updater.clone(), s(REGISTRY)] },
+        Case { contract: HUB, name: "hub.bond_rewards", msg: json!({"bond_rewards": {}}), funds: 1000, designated: reg_disp.clone() },
+        Case { contract: HUB, name: "hub.redelegate_proxy", msg: json!({"redelegate_proxy": {"src_validator": a_val, "redelegations": []}}), funds: 0, designated: reg_registry.clone() },
+        Case { contract: HUB, name: "hub.update_global_index", msg: json!({"update_global_index": {}}), funds: 0, designated: ugi.clone() },
         Case { contract: HUB, name: "hub.swap_hook", msg: json!({"swap_hook": {"airdrop_token_contract": FOREIGN_CW20, "airdrop_swap_contract": SINK, "swap_msg": b64("{}")}}), funds: 0, designated: vec![s(HUB)] },
-        Case { contract: HUB, name: "hub.claim_airdrop", msg: json!({"claim_airdrop": {"airdrop_token_contract": FOREIGN_CW20, "airdrop_contract": SINK, "airdrop_swap_contract": SINK, "claim_msg": b64("{}"), "swap_msg": b64("{}")}}), funds: 0, designated: vec![s(AIRDROP)] },
-        Case { contract: HUB, name: "hub.receive.unbond", msg: json!({"receive": {"sender": "user0", "amount": "1", "msg": b64("{\"unbond\":{}}")}}), funds: 0, designated: vec![s(BSEI), s(STSEI)] },
-        Case { contract: HUB, name: "hub.receive.convert", msg: json!({"receive": {"sender": "user0", "amount": "1", "msg": b64("{\"convert\":{}}")}}), funds: 0, designated: vec![s(BSEI), s(STSEI)] },
+        Case { contract: HUB, name: "hub.claim_airdrop", msg: json!({"claim_airdrop": {"airdrop_token_contract": FOREIGN_CW20, "airdrop_contract": SINK, "airdrop_swap_contract": SINK, "claim_msg": b64("{}"), "swap_msg": b64("{}")}}), funds: 0, designated: reg_airdrop.clone() },
+        Case { contract: HUB, name: "hub.receive.unbond", msg: json!({"receive": {"sender": "user0", "amount": "1", "msg": b64("{\"unbond\":{}}")}}), funds: 0, designated: tokens_both.clone() },
+        Case { contract: HUB, name: "hub.receive.convert", msg: json!({"receive": {"sender": "user0", "amount": "1", "msg": b64("{\"convert\":{}}")}}), funds: 0, designated: tokens_both.clone() },
         Case { contract: DISPATCHER, name: "dispatcher.swap_to_reward_denom", msg: json!({"swap_to_reward_denom": {"bsei_total_bonded": "1", "stsei_total_bonded": "1"}}), funds: 0, designated: vec![s(HUB)] },
         Case { contract: DISPATCHER, name: "dispatcher.dispatch_rewards", msg: json!({"dispatch_rewards": {}}), funds: 0, designated: vec![s(HUB)] },
         Case { contract: DISPATCHER, name: "dispatcher.update_config", msg: json!({"update_config": {"krp_keeper_address": KEEPER}}), funds: 0, designated: vec![d_o.clone()] },
@@ -390,10 +401,10 @@ fn privileged_cases(sim: &Sim) -> Vec<Case> {
         Case { contract: REWARD, name: "reward.update_config", msg: json!({"update_config": {"swap_contract": SWAP}}), funds: 0, designated: vec![ro.clone()] },
         Case { contract: REWARD, name: "reward.set_owner", msg: json!({"set_owner": {"new_owner_addr": rn}}), funds: 0, designated: vec![ro.clone()] },
         Case { contract: REWARD, name: "reward.accept_ownership", msg: json!({"accept_ownership": {}}), funds: 0, designated: vec![rn.clone()] },
-        Case { contract: REWARD, name: "reward.swap_to_reward_denom", msg: json!({"swap_to_reward_denom": {}}), funds: 0, designated: vec![s(DISPATCHER)] },
-        Case { contract: REWARD, name: "reward.update_global_index", msg: json!({"update_global_index": {}}), funds: 0, designated: vec![s(DISPATCHER)] },
-        Case { contract: REWARD, name: "reward.increase_balance", msg: json!({"increase_balance": {"address": INTRUDER, "amount": "1000"}}), funds: 0, designated: vec![s(BSEI)] },
-        Case { contract: REWARD, name: "reward.decrease_balance", msg: json!({"decrease_balance": {"address": "user0", "amount": "0"}}), funds: 0, designated: vec![s(BSEI)] },
+        Case { contract: REWARD, name: "reward.swap_to_reward_denom", msg: json!({"swap_to_reward_denom": {}}), funds: 0, designated: reg_disp.clone() },
+        Case { contract: REWARD, name: "reward.update_global_index", msg: json!({"update_global_index": {}}), funds: 0, designated: reg_disp.clone() },
+        Case { contract: REWARD, name: "reward.increase_balance", msg: json!({"increase_balance": {"address": INTRUDER, "amount": "1000"}}), funds: 0, designated: reg_bsei.clone() },
+        Case { contract: REWARD, name: "reward.decrease_balance", msg: json!({"decrease_balance": {"address": "user0", "amount": "0"}}), funds: 0, designated: reg_bsei.clone() },
         Case { contract: REWARD, name: "reward.update_swap_denom", msg: json!({"update_swap_denom": {"swap_denom": "uother", "is_add": true}}), funds: 0, designated: vec![ro.clone()] },
         Case { contract: REGISTRY, name: "registry.add_validator", msg: json!({"add_validator": {"validator": {"address": a_val}}}), funds: 0, designated: vec![go.clone(), s(HUB)] },
         Case { contract: REGISTRY, name: "registry.remove_validator", msg: json!({"remove_validator": {"address": reg_val}}), funds: 0, designated: vec![go.clone()] },
@@ -478,6 +489,24 @@ fn c10_partial_wiring(sim: &mut Sim, rng: &mut Rng, idx: usize, out: &mut Vec<Vi
 fn c10_matrix(sim: &mut Sim, rng: &mut Rng, idx: usize, out: &mut Vec<Violation>) {
     c10_matrix_on(sim, idx, out);
     c10_partial_wiring(sim, rng, idx, out);
+    // the same matrix on a fresh deployment inside its wiring window (nothing / only the
+    // tokens / tokens and dispatcher registered in the hub): principals that are not
+    // registered yet do not exist, so the corresponding messages must fail for everybody
+    let stage = rng.below(3) as u8;
+    if let Ok(mut fresh) = Sim::new_staged(&sim.cfg, sim.active.clone(), Some(stage)) {
+        fresh.stats.probe(match stage {
+            0 => "c10_matrix_on_unwired_deployment",
+            1 => "c10_matrix_with_only_tokens_registered",
+            _ => "c10_matrix_with_tokens_and_dispatcher_registered",
+        });
+        let mut vs = vec![];
+        c10_matrix_on(&mut fresh, idx, &mut vs);
+        for v in vs.iter_mut() {
+            v.msg = format!("[deployment wiring stage {}] {}", stage, v.msg);
+        }
+        out.extend(vs);
+        absorb(sim, fresh, idx, out);
+    }
     let variant = rng.below(4);
     let mut c = child_of(sim);
     for contract in [HUB, DISPATCHER, REWARD, REGISTRY] {
